@@ -336,6 +336,28 @@ pub fn rec_wire_bytes(args: &Args) {
         }
         ev_from_bytes(&mut out, &b);
     }
+    // (c2) every first header byte with every code byte, on datagrams that end right after the token (and,
+    // when the token length is valid, with one option and a payload as well): the parser judges neither the
+    // version, nor the type, nor the code.  Native sweep; whatever is rejected, panics or does not round-trip
+    // is forwarded to TLC, and so is a sample of the rest.
+    for b0 in 0..=255u8 {
+        for code in 0..=255u8 {
+            let tkl = (b0 & 15) as usize;
+            let mut b = vec![b0, code, 0x12, 0x34];
+            b.extend((0..tkl.min(8)).map(|i| 0xA0 + i as u8));
+            for tail in [&[][..], &[0x11, 0x22, 0xFF, 0x33][..]] {
+                let mut d = b.clone();
+                d.extend(tail);
+                swept += 1;
+                let rejected = !matches!(guarded(|| Packet::from_bytes(&d)), Some(Ok(_)));
+                let sample = (b0 as usize * 256 + code as usize) % 211 == 0;
+                if rejected || sample || !unremarkable(&d) {
+                    forwarded += 1;
+                    ev_from_bytes(&mut out, &d);
+                }
+            }
+        }
+    }
     // (d) native sweep with anomaly forwarding: all suffixes of <= 2 (quick) / <= 3 (thorough) bytes
     let depth = if thorough { 3 } else { 2 };
     for h in HEADERS {
